@@ -671,7 +671,8 @@ pub fn step_monitors(props: &[&str], pre: &Sim, act: &Act, ap: &Applied, post: &
                 if ok && !allowed {
                     v.push(viol("C11", "fee_withdraw.accepted_wrongly", format!("FeeWithdraw({a}) by {sender} accepted: admin={is_admin} fees={} treasury={:?}", ps.total_fees, pre.m.treasury)));
                 }
-                if !ok && allowed && pre.w.bal(&me, &sd) >= a {
+                // (not judged while the bank refuses payments to the treasury: fault 4)
+                if !ok && allowed && pre.w.bal(&me, &sd) >= a && pre.w.ibc.reply_fault != 4 {
                     v.push(viol("C11", "fee_withdraw.refused_wrongly", format!("FeeWithdraw({a}) by admin refused: {:?}", ap.out.err)));
                 }
                 if ok && allowed {
